@@ -21,7 +21,7 @@ FOUR = ("ansi", "postgres", "tsql", "bigquery")
 
 
 def universe():
-    u = common.jj_cases(6000, "hostile", FOUR) + common.jj_cases(3000, "lintable", FOUR)
+    u = common.jj_cases(6000, "hostile", FOUR) + common.jj_cases(3000, "lintable", FOUR) + common.jj_cases(900, "guarded", ("ansi",))
     for c in common.fx_cases(6000):
         c = dict(c)
         c["id"] = "jfx:" + c["id"][3:]
